@@ -425,6 +425,16 @@ impl Session {
                 let r = unsafe { libc::kill(pid, u("sig") as i32) };
                 json!({"ok": r == 0, "kind": "sent"})
             }
+            "tgkill" => {
+                // a signal for one thread, sent from outside while the debuggee is stopped
+                let pid = self.pid();
+                let r = unsafe { libc::syscall(libc::SYS_tgkill, pid, u("tid") as i32, u("sig") as i32) };
+                json!({"ok": r == 0, "kind": "sent"})
+            }
+            "thread" => match self.d().set_thread_into_focus(u("num") as u32) {
+                Ok(t) => json!({"ok": true, "kind": "focus", "tid": t.pid.as_raw()}),
+                Err(e) => self.err_json(e),
+            },
             "values" => crate::valw::values(self, cmd),
             "dqe" => crate::valw::dqe(self, cmd),
             "c15_sweep" => {
@@ -542,11 +552,24 @@ impl Session {
                 for t in rd.flatten() {
                     let tid: i32 = t.file_name().to_string_lossy().parse().unwrap_or(0);
                     let st = std::fs::read_to_string(t.path().join("stat")).unwrap_or_default();
-                    let state = st.rsplit(") ").next().and_then(|r| r.chars().next()).unwrap_or('?');
-                    tasks.push(json!({"tid":tid,"state":state.to_string()}));
+                    let rest = st.rsplit(") ").next().unwrap_or("");
+                    let state = rest.chars().next().unwrap_or('?');
+                    // field 9 of stat (7th after the state) holds the task flags; PF_EXITING = 4
+                    let flags: u64 = rest.split_whitespace().nth(6).and_then(|f| f.parse().ok()).unwrap_or(0);
+                    tasks.push(json!({"tid":tid,"state":state.to_string(),"exiting": flags & 4 != 0}));
                 }
             }
             o.insert("tasks".into(), json!(tasks));
+            // the debugger's own thread list
+            match dbg.thread_state() {
+                Ok(ts) => {
+                    let v: Vec<Value> = ts.iter().map(|t| json!({"tid": t.thread.pid.as_raw(), "num": t.thread.number, "in_focus": t.in_focus, "line": t.place.as_ref().map(|p| p.line_number)})).collect();
+                    o.insert("threads".into(), json!(v));
+                }
+                Err(e) => {
+                    o.insert("threads_err".into(), json!(format!("{e}")));
+                }
+            }
             if want_bt {
                 match dbg.backtrace(focus) {
                     Ok(bt) => {
